@@ -116,6 +116,7 @@ class C02(HistoryProperty):
         if rng.random() < 0.002:
             return self._long_sweep_case(rng)
         cfg = gen.swarm_cfg(rng, off=("alloptions", "shape_change", "dangling"), on=("dsclass",))
+        cfg["odd_returns"] = rng.random() < 0.3  # bodies returning a container that holds something uncopyable
         cfg["mutating_bodies"] = rng.random() < 0.4  # bodies that work in place on a section / list taken from the options
         if cfg["mutating_bodies"]:
             cfg["whole_section"] = cfg["lists"] = True
